@@ -334,7 +334,23 @@ func lowerBoundOK(p *Program, idx ssa.Value) (bool, string) {
 			return a && bOK, "cursor plus a non-negative offset"
 		}
 	case *ssa.Phi:
-		return true, "loop index"
+		// a loop index: every edge is a non-negative constant, the index itself plus a non-negative constant,
+		// or a value that is non-negative for one of the reasons above (a loop that counts down is not accepted here)
+		for _, e := range x.Edges {
+			if bo, ok := e.(*ssa.BinOp); ok && bo.Op == token.ADD && bo.X == ssa.Value(x) {
+				if c, ok := bo.Y.(*ssa.Const); ok && c.Int64() >= 0 {
+					continue
+				}
+				return false, "loop index changed by something other than a non-negative constant step"
+			}
+			if _, isPhi := e.(*ssa.Phi); isPhi {
+				return false, "loop index fed by another loop variable"
+			}
+			if ok, _ := lowerBoundOK(p, e); !ok {
+				return false, "loop index with an edge that may be negative"
+			}
+		}
+		return true, "loop index: starts non-negative and only grows"
 	}
 	return false, "unknown lower bound"
 }
